@@ -11,7 +11,7 @@ static int m_socket(int family, int type, int proto);
 static int m_bind(int fd, const struct sockaddr *a, socklen_t l);
 static int m_connect(int fd, const struct sockaddr *a, socklen_t l);
 static int m_established(int fd);
-static int m_effectuate(struct tcp_opts *o, int fd);
+static int m_effectuate(const struct tcp_opts *o, int fd);
 static struct timer_mgr *m_tm_create(struct xpoll *x, void *l);
 static int64_t m_tm_schedule(struct timer_mgr *m, double t);
 static bool m_tm_expired(struct timer_mgr *m, int64_t id);
@@ -78,11 +78,21 @@ static const char *next_tok(void) { return used_tok < n_tok ? toks[used_tok++] :
 
 static int m_socket(int family, int type, int proto) { return family == AF_INET ? FD4 : FD6; }
 static void m_close(int fd) { }
-static int m_effectuate(struct tcp_opts *o, int fd)
+/* the options as they were when tconnect_connect() was called: tconnect works on a snapshot (xcm_tp_btcp.c re-applies
+   what the user set later itself, by comparing with the snapshot it gets back); the caller's own structure keeps changing */
+static const struct tcp_opts SNAP = { .keepalive = true, .keepalive_time = 77, .keepalive_interval = 5, .keepalive_count = 9, .user_timeout = 31 };
+static struct tcp_opts live_opts;          /* like btcp's per-socket options: live, user-writable */
+static bool is_snap(const struct tcp_opts *o)
+{
+    return o->keepalive == SNAP.keepalive && o->keepalive_time == SNAP.keepalive_time && o->keepalive_interval == SNAP.keepalive_interval &&
+	o->keepalive_count == SNAP.keepalive_count && o->user_timeout == SNAP.user_timeout;
+}
+static int m_effectuate(const struct tcp_opts *o, int fd)
 {
     const char *t = next_tok();
-    if (t[0] == 'E') { tr("Ef(%d)=%s", fd == FD4 ? 4 : 6, t); errno = h_errnum(t + 1); return -1; }
-    tr("Ef(%d)", fd == FD4 ? 4 : 6);
+    const char *q = is_snap(o) ? "" : "!not-the-snapshot";
+    if (t[0] == 'E') { tr("Ef(%d)=%s%s", fd == FD4 ? 4 : 6, t, q); errno = h_errnum(t + 1); return -1; }
+    tr("Ef(%d)%s", fd == FD4 ? 4 : 6, q);
     return 0;
 }
 static int addr_idx(const struct sockaddr *a)
@@ -157,8 +167,13 @@ static int __attribute__((noinline)) do_connect(enum tconnect_algorithm alg, boo
 	local_ip_data.addr.ip4 = htonl(0x7f000009);
 	local_ip = &local_ip_data;
     }
-    struct tcp_opts opts; tcp_opts_init(&opts);
-    return tconnect_connect(tc, local_ip, (uint16_t)lport, scope, 3.0, &opts, ips, n_ips, 4711);
+    live_opts = SNAP;
+    int rc = tconnect_connect(tc, local_ip, (uint16_t)lport, scope, 3.0, &live_opts, ips, n_ips, 4711);
+    int e = errno;
+    /* the user changes options while the connection is being established */
+    live_opts.keepalive = false; live_opts.keepalive_time = 1234; live_opts.keepalive_interval = 56; live_opts.keepalive_count = 3; live_opts.user_timeout = 99;
+    errno = e;
+    return rc;
 }
 
 /* overwrite the dead stack frame of do_connect(), as later calls of the application would */
@@ -206,7 +221,7 @@ int main(void)
 	    int rc = tconnect_get_connected_fd(tc, &fd, &scope, &opts);
 	    int e = errno;
 	    if (rc < 0) fprintf(o, "-1 %s | %s | regs=%d timers=%d\n", h_errname(e), trace_len ? trace : "-", regs, live_timers);
-	    else fprintf(o, "0 fd=%d | %s | regs=%d timers=%d\n", fd == FD4 ? 4 : 6, trace_len ? trace : "-", regs, live_timers);
+	    else fprintf(o, "0 fd=%d%s | %s | regs=%d timers=%d\n", fd == FD4 ? 4 : 6, is_snap(&opts) ? "" : "!not-the-snapshot", trace_len ? trace : "-", regs, live_timers);
 	} else
 	    fputs("bad-op\n", o);
 	fflush(o);
